@@ -173,3 +173,87 @@ def run(tpl, kinds, use_ref, fail):
                 if m is not None and ra.sim.memory[DATA] != rb.sim.memory[DATA]:
                     return fail('C06/%s-vs-%s/table/memory' % (ra.kind, rb.kind), '(HL) differs after template %s with A=%d (HL)=%d' % (tpl, a, m)), n
     return None, n
+
+
+# ---------------------------------------------------------------------------------------------------------
+# Clock sweep: the instructions whose result depends on the position of the clock inside the frame (HALT leaves
+# the halted state only inside the interrupt window; LD A,I / LD A,R read P/V as 0 when an interrupt follows
+# at once) executed at every T-state around a frame boundary, in frames 0, 1, around 2^24, 2^31, 2^32, 2^33
+# and 2^40 T-states (a 20-minute emulated run passes 2^32).
+
+CLOCK_TEMPLATES = [('clock', m, k) for m in (0, 1) for k in range(10)]
+
+def clock_frames(frame):
+    return (0, 1, (1 << 24) // frame, (1 << 24) // frame + 1, (1 << 31) // frame + 1, (1 << 32) // frame, (1 << 32) // frame + 1,
+            (1 << 33) // frame + 3, (1 << 36) // frame, (1 << 40) // frame)
+
+def run_clock(tpl, kinds, use_ref, fail):
+    _, m, k = tpl
+    machine = ('48K', '128K')[m]
+    frame = (69888, 70908)[m]
+    code = {0x8000: [0x76], 0x8010: [0xED, 0x57], 0x8020: [0xED, 0x5F], 0x8030: [0xFB], 0x8040: [0xDD, 0x76]}
+    mem = {'machine': machine, 'patches': [[a, bytes(c).hex()] for a, c in code.items()]}
+    if m:
+        mem['banks'] = [{'fill': 0}] * 8
+        mem['o7ffd'] = 0
+    else:
+        mem['ram'] = {'fill': 0}
+    base = {'kind': 'wstep', 'machine': machine, 'mem': mem, 'regs': [0] * 30, 'tracer': {'present': True, 'in_r_c': True, 'ini': True}, 'reads': [0xFF], 'steps': 1, 'ints': [], 'replicas': list(kinds)}
+    st = lockstep.materialise_state(base)
+    reps = [lockstep.get_replica(kd, machine) for kd in kinds]
+    for r in reps:
+        r.reset(st)
+    ref = None
+    if use_ref:
+        ref = lockstep.get_ref(machine)
+        ref.reset(st)
+    fr = clock_frames(frame)[k]
+    n = 0
+    for d in range(-44, 60):
+        t0 = fr * frame + d
+        if t0 < 0:
+            continue
+        for pc in sorted(code):
+            for iff in (0, 1):
+                for halted in ((0, 1) if pc in (0x8000, 0x8040) else (0,)):
+                    state = [0] * 30
+                    state[0], state[1] = 0x5A, 0xFF
+                    state[12] = 0xA000
+                    state[14], state[15] = 0x3C, 0x7E
+                    state[24], state[25], state[26], state[27], state[28] = pc, t0, iff, 1, halted
+                    if pc == 0x8040 and halted:
+                        state[24] = 0x8041
+                    for r in reps:
+                        regs = r.sim.registers
+                        for i in range(30):
+                            regs[i] = state[i]
+                    if ref is not None:
+                        ref.cpu.reg[:] = state
+                        info = ref.cpu.step()
+                    for r in reps:
+                        r.step()
+                    n += 1
+                    got = [r.regs() for r in reps]
+                    what = 'opcode at %d executed at T=%d (frame %d %+d) IFF=%d halted=%d on %s' % (pc, t0, fr, d, iff, halted, machine)
+                    if ref is not None:
+                        rr = ref.cpu.reg
+                        for r, g in zip(reps, got):
+                            for i in (0, 1, 15, 24, 26, 28):
+                                x, y = g[i], rr[i]
+                                if i == F:
+                                    x &= info.mask
+                                    y &= info.mask
+                                if x != y:
+                                    return fail('C05/%s/clock/%s' % (r.kind, lockstep.REGNAMES[i]), '%s: %s=%d, reference %d: %s' % (r.kind, lockstep.REGNAMES[i], g[i], rr[i], what)), n
+                            if not r.cmio and g[T] - t0 != info.t:
+                                return fail('C05/%s/clock/tstates' % r.kind, '%s: %d T-states, reference %d: %s' % (r.kind, g[T] - t0, info.t, what)), n
+                    else:
+                        pairs = list(zip(reps, got))
+                        for (ra, ga), (rb, gb) in zip(pairs, pairs[1:]):
+                            if ra.cmio != rb.cmio:
+                                continue
+                            for i in (0, 1, 15, 24, 25, 26, 28):
+                                if ga[i] != gb[i]:
+                                    return fail('C06/%s-vs-%s/clock/%s' % (ra.kind, rb.kind, lockstep.REGNAMES[i]), '%s vs %s: %s=%d vs %d: %s' % (
+                                        ra.kind, rb.kind, lockstep.REGNAMES[i], ga[i], gb[i], what)), n
+    return None, n
